@@ -1,13 +1,24 @@
 import PPLV.Lin.Parse
+import PPLV.Lin.Ops2
 
 /-! `pplv_lin`: replays a polyhedron journal on the reference model and decides every
-observation with the verified K1 procedures.  See `harness/c01_poly.cc` for the grammar. -/
+observation with the verified K1 procedures.  See `harness/c01_poly.cc` for the grammar.
+
+Events of the second C02 batch (models: `PPLV/Lin/Ops2.lean`, theorems: `PPLV/Props/C02.lean`):
+* `op <s> pos_time_elapse <t>` · `op <s> conv <cs>` (through the other topology and back: closure of
+  `P ∩ cs`) · `op <s> add_cgs <cgs>` · `op <s> fold <dest> <m> <v_1..v_m>` (after `hint <s>`);
+  congruence system `<m> (<modulus> <expr>)*`, modulus 0 = equality;
+* `pre <s> diff <t>`, `piece <s> <constraint> gens <gs>`*, `res <s> diff <t> 2 <cs>`: leastness of
+  `poly_difference_assign` judged by `RefPoly.diffJudge` (flag `1`: no hints, containments only);
+* `pre <s> refine_cgs <s>`, `res <s> refine_cgs <s> 1 <cs> <cgs>`: `P ∩ cgs ⊆ R ⊆ P`;
+* `q <s> threw <operation> <0|1>`: an operation documented to throw did (1) or did not (0). -/
 open PPLV.Lin
 
 structure St where
   slots : Array (Option RefPoly) := Array.replicate 16 none
   hints : Array (Option (List Gen)) := Array.replicate 16 none
   lastOp : Option (Nat × RefPoly) := none      -- slot and model value before the last op
+  pieces : List (Con × List Gen) := []         -- `piece` hints of a pending `diff`
   maxGens : Nat := 9
   nOk : Nat := 0
   nBad : Nat := 0
@@ -36,6 +47,20 @@ def shrink (p : RefPoly) : RefPoly :=
   if p.cs.length ≤ 12 then p else { p with cs := dropRedundant p.n [] (tidy p.cs) }
 
 def b2s (b : Bool) : String := if b then "1" else "0"
+
+/-- congruence system `<m> (<modulus> <expr>)*` -/
+def parseCongs (n : Nat) (ts : List String) : List Cong × List String :=
+  match ts with
+  | m :: rest =>
+    let rec go (k : Nat) (ts : List String) (acc : List Cong) : List Cong × List String :=
+      match k with
+      | 0 => (acc, ts)
+      | k+1 =>
+        match ts with
+        | md :: ts1 => let (e, ts2) := parseExpr n ts1; go k ts2 (acc ++ [⟨tokInt md, e⟩])
+        | [] => (acc, [])
+    go (tokNat m) rest []
+  | [] => ([], [])
 
 /-- apply an operator to the model; `none` = operator not modelled (slot becomes unknown) -/
 def applyOp (p : RefPoly) (name : String) (args : List String) (other : Nat → Option RefPoly)
@@ -101,6 +126,18 @@ def applyOp (p : RefPoly) (name : String) (args : List String) (other : Nat → 
       else match hint self, hint (tokNat t) with
         | some g1, some g2 => some (RefPoly.ofGens p.nnc n (timeElapseGens g1 g2))
         | _, _ => none
+  -- ---- C02, second batch (models in `PPLV/Lin/Ops2.lean`) ----
+  | "pos_time_elapse", [t] => (other (tokNat t)).map fun q => p.posTimeElapse q
+  | "conv", a =>
+    -- through the other topology and back: the closure of `P ∩ rows`
+    some (p.addCons (parseCS n a).1).closure
+  | "add_cgs", a => some (p.addCongs (parseCongs n a).1)
+  | "fold", dest :: _ :: vs =>
+    let vars := vs.map tokNat
+    if p.isEmpty then some (emptyP p.nnc (otherVars n vars).length)
+    else match hint self with
+      | some hg => if hg.length * (vars.length + 1) > 18 then none else some (p.foldGens vars (tokNat dest) hg)
+      | none => none
   | _, _ => none
 
 def supStr : Sup → String
@@ -118,7 +155,7 @@ def processLine (ln : Nat) (line : String) : M Unit := do
   let ts := (line.trimAscii.toString.splitOn " ").filter (· ≠ "")
   match ts with
   | "hist" :: _ => do
-    modify fun s => { s with slots := Array.replicate 16 none, hints := Array.replicate 16 none, lastOp := none }
+    modify fun s => { s with slots := Array.replicate 16 none, hints := Array.replicate 16 none, lastOp := none, pieces := [] }
   | "new" :: s :: topo :: n :: kind :: rest => do
     let nn := tokNat n
     let nnc := topo == "N"
@@ -159,16 +196,28 @@ def processLine (ln : Nat) (line : String) : M Unit := do
   | "pre" :: s :: _ => do
     -- an operator whose result is judged by its defining relations (see `res`)
     match ← getSlot (tokNat s) with
-    | some p => modify fun st => { st with lastOp := some (tokNat s, p) }
-    | none => modify fun st => { st with lastOp := none }
+    | some p => modify fun st => { st with lastOp := some (tokNat s, p), pieces := [] }
+    | none => modify fun st => { st with lastOp := none, pieces := [] }
+  | "piece" :: s :: rest => do
+    -- `piece <s> <constraint> gens <gs>`: generators claimed for (slot s) ∩ constraint; verified by `diffJudge`
+    match ← getSlot (tokNat s) with
+    | some p =>
+      match parseCon p.n rest with
+      | ([row], "gens" :: gt) =>
+        modify fun st => { st with pieces := st.pieces ++ [(row, (parseGS p.n gt).1)] }
+      | _ => pure ()
+    | none => pure ()
   | "res" :: s :: name :: t :: b :: rest => do
     let si := tokNat s
     let st ← get
     match st.slots.getD si none, st.slots.getD (tokNat t) none with
     | some p, some q =>
       let n := p.n
-      let r : RefPoly := { p with cs := (parseCS n rest).1 }
+      let (rcs, rest') := parseCS n rest
+      let r : RefPoly := { p with cs := rcs }
       let hints := st.hints
+      let pieceHints := st.pieces
+      modify fun st => { st with pieces := [] }
       clearHints
       let verdict : Option String :=
         if name == "simplify_ctx" then
@@ -188,6 +237,14 @@ def processLine (ln : Nat) (line : String) : M Unit := do
           if !(pieces.all fun pc => r.contains pc) then some "poly_difference_assign: a point of the set difference is missing from the result"
           else if !(p.contains r) then some "poly_difference_assign: the result is not contained in the minuend"
           else if q.contains p && !r.isEmpty then some "poly_difference_assign: subtrahend contains minuend but result non-empty"
+          -- leastness (b = 2: the harness supplied generator hints of every non-empty piece)
+          else if b == "2" && !(wfB n p.cs && wfB n q.cs && wfB n rcs && p.diffJudge q pieceHints rcs) then
+            some "poly_difference_assign: the result is not the least polyhedron containing the set difference (or a piece hint is wrong)"
+          else none
+        else if name == "refine_cgs" then
+          -- P ∩ cgs ⊆ R ⊆ P
+          let cgs := (parseCongs n rest').1
+          if !(wfB n p.cs && wfB n rcs && cgs.all (fun c => decide (0 ≤ c.m)) && p.refineCongsJudge cgs rcs) then some "refine_with_congruences: result is not between P ∩ congruences and P"
           else none
         else if name == "hull_if_exact" then
           -- exact iff hull ⊆ P ∪ Q, i.e. every piece hull ∩ ¬c (c a row of P) lies in Q
@@ -309,14 +366,12 @@ def processLine (ln : Nat) (line : String) : M Unit := do
       else if qn == "relgen" then
         match parseGen p.n rest with
         | (some g, [a]) =>
-          let sub :=
-            !p.isEmpty && match g.kind with
-              | .point => p.hasPoint g.coords g.div
-              | .cpoint => ({ p with cs := relax p.cs } : RefPoly).hasPoint g.coords g.div
-              | .ray => p.hasRay g.coords
-              | .line => p.hasRay g.coords && p.hasRay (g.coords.map (- ·))
+          let sub := p.subsumes g
           cmpB sub a
         | _ => skip ln "parse"
+      else if qn == "threw" then
+        -- `threw <operation> <0|1>`: the operation is documented to throw (object unchanged)
+        cmpB true (rest.getD 1 "")
       else if qn == "bounds_above" then
         let (e, r) := parseExpr p.n rest
         cmpB (match p.sup e with | .unbounded => false | _ => true) (r.getD 0 "")
